@@ -521,6 +521,14 @@ func (r *runner) buildBody(op *Op, res *OpResult) []byte {
 		}
 		m["multipleUnitUsage"] = muu
 	}
+	switch op.Corrupt {
+	case "isn-string":
+		m["invocationSequenceNumber"] = fmt.Sprint(isn)
+	case "ts-number":
+		m["invocationTimeStamp"] = 1234567890
+	case "muu-object":
+		m["multipleUnitUsage"] = map[string]interface{}{"ratingGroup": 1}
+	}
 	b, _ := json.Marshal(m)
 	return b
 }
